@@ -284,7 +284,10 @@ def check(world, tier):
         fn = short(ed.frame_bodies[fid_].path)
         caller = short(frame_fn(fid_[:-1])) if len(fid_) > 1 else ""
         key = fn if not fn.endswith("Convert::to_string") else "to_string<-" + caller
-        starts.setdefault(key, set()).add(lin.show(st_) if st_[1] else st_[0])
+        off = lin.show(st_) if st_[1] else st_[0]
+        if rk == "ConstantIndex" and isinstance(off, int) and off < 4:
+            off -= off % 2      # a byte-wise read (slice pattern) of a two-byte header field: the field starts at the even offset
+        starts.setdefault(key, set()).add(off)
     c.need(len(ed.index_log), 5, "range reads of the datagram in the decoder")
     def has(k, v):
         return any(k_.endswith(k) and v in vs for k_, vs in starts.items())
